@@ -16,7 +16,7 @@
 From Coq Require Import List NArith ZArith Bool.
 Import ListNotations.
 Require Import Aurora.Consts Aurora.C18.KV Aurora.C18.Proofs.
-Require Import Aurora.C19.Model Aurora.C19.Sorted Aurora.C19.Proofs Aurora.C19.Abs Aurora.C19.State Aurora.C19.Iso.
+Require Import Aurora.C19.Model Aurora.C19.Sorted Aurora.C19.Proofs Aurora.C19.Abs Aurora.C19.State Aurora.C19.Iso Aurora.C19.Conc.
 Local Open Scope N_scope.
 
 (** side conditions on the constants of pkg/shed/leveldb/schema.go, re-checked on every run *)
@@ -169,6 +169,30 @@ Proof.
   now apply N.eqb_eq.
 Qed.
 Print Assumptions C19_index_prefixes.
+
+(** bulk readers against concurrent batch commits, over ALL schedules and any number of threads:
+    a reader running the program of Fill / HasMulti (snapshot, then one lookup per key, other
+    threads free to run between any two of its actions) ends with exactly the lookups of ONE
+    database state that occurred along the execution — a batch committed meanwhile is seen
+    entirely or not at all *)
+Theorem C19_bulk_read_atomic : forall (db0 : list kv) (ths : list thread) (r : nat) (ks : list bytes)
+    (sched : list nat) (t' : thread),
+  nth_error ths r = Some (snapshot_reader ks) ->
+  nth_error (snd (run_sched (db0, ths) sched)) r = Some t' -> prog t' = [] ->
+  exists S, In S (dbs_along (db0, ths) sched) /\ res t' = map (fun k => db_get k S) ks.
+Proof. exact bulk_read_atomic. Qed.
+Print Assumptions C19_bulk_read_atomic.
+
+(** the variant that does one db.Get per item instead (no snapshot) does NOT have this property:
+    two keys, one batch rewriting both, schedule reader / writer / reader.  (A statement about the
+    variant program, not about the code under test.) *)
+Theorem C19_fill_per_item_get_refuted :
+  exists t', nth_error (snd (run_sched (w_db0, w_ths (per_item_reader w_keys)) w_sched)) 0 = Some t' /\
+    prog t' = [] /\
+    ~ exists S, In S (dbs_along (w_db0, w_ths (per_item_reader w_keys)) w_sched) /\
+                res t' = map (fun k => db_get k S) w_keys.
+Proof. exact per_item_reader_refuted. Qed.
+Print Assumptions C19_fill_per_item_get_refuted.
 
 (** non-vacuity: a concrete history (two indexes, a batch, a field) reaches a well-formed
     state in which a reverse iteration from an absent start item under a prefix is in the
